@@ -43,3 +43,12 @@ fn k_c14_guard(depth: u8, delta: u8, which: u8) {
   }
   kani::cover!(true, "guard bypassed");
 }
+
+fn k_c14_dirs(depth: u8) {
+  let a: u64 = kani::any();
+  let k: u8 = kani::any();
+  kani::assume(a < spec_n_hash(depth) && k < 8);
+  kani::cover!(a >> (2 * depth as u32) >= 8, "south polar base cell");
+  kani::cover!(a >> (2 * depth as u32) < 4 && k == 7, "north polar base cell, N direction");
+  p_c14_dirs(depth, a, k);
+}
